@@ -17,6 +17,14 @@ class Interrupt(Exception):
         self.task = task
 
 
+class HardInterrupt(BaseException):
+    """an interrupt that is not an Exception (like KeyboardInterrupt or asyncio.CancelledError)"""
+
+    def __init__(self, task):
+        BaseException.__init__(self, "hard interrupt at sub-cube %d" % task)
+        self.task = task
+
+
 def make_funcs(kind, case, rnd, names):
     """function objects (ffuncs for the index cube, xfuncs for the array cube) for the aggregates `names`"""
     if kind == "ccube":
@@ -119,7 +127,8 @@ class PoolRun:
                     return orig(coordinates, regions)
                 f.fill = fl
 
-    def evaluate(self, mode, P=2, faults=(), sched_seed=0, script=None, switch_prob=0.05, funcs=None, real_pool=False):
+    def evaluate(self, mode, P=2, faults=(), sched_seed=0, script=None, switch_prob=0.05, funcs=None, real_pool=False,
+                 hard=False):
         """returns (trace dict, outputs or None, funcs)"""
         faults = set(faults)
         cube = self.cube
@@ -143,7 +152,7 @@ class PoolRun:
             raised = t in faults
             sched.boundary(w, "check", w, t, raised) if (mode == "pool" and not real_pool) else sched.log.append(("check", w, t, raised))
             if raised:
-                raise Interrupt(t)
+                raise (HardInterrupt if hard else Interrupt)(t)
 
         def logfill():
             w, t = where()
@@ -166,9 +175,12 @@ class PoolRun:
                     outs = cube.calculate(funcs)
             else:
                 outs = cube.calculate(funcs)
-        except Interrupt as e:
+        except (Interrupt, HardInterrupt) as e:
             outcome = "raised"
-            tagok = e.task in faults
+            tagok = e.task in faults and isinstance(e, HardInterrupt if hard else Interrupt)
+        except sc.PoolHang:
+            outcome = "hung"
+            tagok = False
         except Exception as e:  # noqa
             outcome = "raised"
             tagok = False
